@@ -56,7 +56,7 @@ def shards(tier, seed):
     out = []
     lats = alphabets.lattices(tier, seed)
     if tier == 'quick':
-        lats = [l for l in lats if l[0] in ('cubic6', 'ortho567-axes-permuted', 'tric-pmg-default', 'hex-a5-c7')]
+        lats = [l for l in lats if l[0] in ('cubic6', 'ortho567-axes-permuted', 'tric-pmg-default', 'hex-a5-c7', 'tric-vesta-left-handed')]
     for lname, M in lats:
         for j in range(12 if tier == 'thorough' else 6):
             out.append({'lat': lname, 'M': M.tolist(), 'j': j, 'identical': False})
